@@ -48,6 +48,24 @@ func c06Cases(tier string, seed uint64, flavor string) []lib.Case {
 			cases = append(cases, lib.Case{Kind: "wide/" + sc, Spec: lib.MustSpec(s)})
 		}
 	}
+	// a 9 MiB file: aggregated wounds are flushed every 4 MiB, so the healer starts rewriting the file while the
+	// validator is still reading it
+	for wi, dm := range [][]lib.Damage{
+		{{Op: "flip", Path: "big.bin", N: 0}},
+		{{Op: "garble", Path: "big.bin", N: lib.BS, S: fmt.Sprint(4*lib.MB + 3*lib.BS)}},
+		{{Op: "garble", Path: "big.bin", N: 0, S: fmt.Sprint(9*lib.MB + 1234)}},
+		{{Op: "truncate", Path: "big.bin", N: 5 * lib.MB}},
+		{{Op: "extend", Path: "big.bin", N: 2*lib.BS + 3}},
+		{{Op: "flip", Path: "big.bin", N: 9 * lib.MB}, {Op: "delete", Path: "small.bin"}},
+	} {
+		for si, sc := range []string{"validator-first", "healer-first", "perturb", "perturb"} {
+			if flavor == "race" && si < 2 {
+				continue
+			}
+			s := c06Spec{Build: "big", Seed: lib.Mix(seed, 608), Damages: dm, Sched: sc, SchedSeed: lib.Mix(seed, 609, uint64(wi), uint64(si)), Procs: []int{1, 4, 16}[(wi+si)%3]}
+			cases = append(cases, lib.Case{Kind: "big/" + sc, Spec: lib.MustSpec(s)})
+		}
+	}
 	for bi := 0; bi < nb; bi++ {
 		for _, name := range []string{"nested", "small"} {
 			bs := lib.Mix(seed, 6, uint64(bi))
